@@ -29,6 +29,8 @@ for d in sorted(glob.glob(os.path.join(root, "seeded", "*")), key=lambda p: (os.
             own += f" - caught by {meta['caught_by_sibling_check']}"
         elif meta.get("not_covered_deliberately"):
             own += f" - not covered, deliberately ({meta['not_covered_deliberately']})"
+        elif meta.get("still_missed"):
+            own += f" - {meta['still_missed']}"
         elif meta.get("status_note"):
             own += " - neutralised by a repair (see text)"
     rows.append(f"| {sid} | {summ} | {'yes' if ok else 'NO'} | {own} |")
